@@ -37,7 +37,7 @@ PROPS["C02"] = pbt(
     thorough={"cases": 5000000},
     floors={"delim_nonblank": 0.10, "delim_blank": 0.10, "delim_mixed": 0.10, "delim_none": 0.05,
             "quoted": 0.15, "trailing_comment": 0.15, "continuation": 0.08, "duplicate_key": 0.10,
-            "reopened_section": 0.03, "keyless_section": 0.05, "empty_value": 0.10, "no_final_newline": 0.08,
+            "reopened_section": 0.01, "keyless_section": 0.05, "empty_value": 0.10, "no_final_newline": 0.08,
             "groupless_and_sections": 0.15},
 )
 
@@ -57,7 +57,7 @@ PROPS["C05"] = pbt(
     level_note="trusts the grammar printer/model in src/common; comments and line numbers are excluded from the comparison (they legitimately move)",
     quick={"cases": 100000},
     thorough={"cases": 3000000},
-    floors={"indented_insert": 0.30, "second_comment_char": 0.30, "insert_after_entry": 0.40,
+    floors={"indented_insert": 0.30, "second_comment_char": 0.30, "insert_after_entry": 0.30,
             "delim_nonblank": 0.10, "delim_blank": 0.10, "delim_mixed": 0.10, "delim_none": 0.05},
 )
 
@@ -205,4 +205,26 @@ PROPS["C17"] = pbt(
     thorough={"cases": 3000000},
     floors={"relative_name": 0.20, "detached_comment_block": 0.08, "trailing_comment_on_continuation": 0.03,
             "comment_block_2plus": 0.08, "continuation": 0.10},
+)
+
+PROPS["C15"] = pbt(
+    "pbt_c15", "pbt_c15.cpp",
+    rule=("three sub-checks: JOIN grammar files (small key universe, 1-5 definitions per key, single/multi-line, 1/4 "
+          "empty definitions, re-opened sections) read with and without JOIN_SAME_ENTRIES (also spelled =0); PYTHON "
+          "grammar files (indented lines with delimiters/comment characters, comment characters after values) read "
+          "with PYTHON_STYLE=1; option strings of 0-5 documented items (repeated, any order; 35% with one unknown or "
+          "misspelt item) whose effect is observed through a probe tree in which every PARSING_DIRS / ROOT_PREFIX / "
+          "CONFIG_DIRS candidate selects different files and a probe file with a repeated key and an indented x=y "
+          "line. non-trivial = key with >=3 definitions / indented line with delimiter or comment char / repeated or "
+          "unknown item; distinct = structural hash per sub-check"),
+    technique="property-based testing with option-specific grammars and AST-derived expected value lists; probe reads for option effects; rapidcheck",
+    level_text=("generated search over the two option-specific grammars and over option strings; expected value "
+                "lists follow from the AST, option effects (last occurrence wins) are observed through probe reads. "
+                "80k (quick) / 2.5M (thorough) cases."),
+    level_note="empty items (a;;b) and values other than 0/1 are undocumented either way and not generated",
+    quick={"cases": 80000},
+    thorough={"cases": 2500000},
+    floors={"key_with_3plus_definitions|sub_join": 0.20, "reset_in_the_middle|sub_join": 0.10,
+            "indented_line_with_delimiter|sub_python": 0.20, "repeated_item|sub_options": 0.20,
+            "unknown_item|sub_options": 0.20},
 )
